@@ -10,7 +10,7 @@ use std::time::Duration;
 
 /// worker: {"dir": .., "extra": bool} or {"file": ..} -> {"ok": bool, "json": text | "err": ..}
 pub fn worker_handle(req: &Value) -> Value {
-    let r = catch(std::panic::AssertUnwindSafe(|| -> Result<String, String> {
+    let r = catch(std::panic::AssertUnwindSafe(|| -> Result<(String, String), String> {
         let m = if let Some(dir) = req["dir"].as_str() {
             let extra = req["extra"].as_bool().unwrap_or(false);
             hulc2model::collect_hulc_data(dir, extra, extra).map_err(|e| e.to_string())?
@@ -19,10 +19,12 @@ pub fn worker_handle(req: &Value) -> Value {
             let d = hulc::ctehexml::parse_with_catalog_from_path(file).map_err(|e| e.to_string())?;
             Model::try_from(&d).map_err(|e| e.to_string())?
         };
-        m.as_json().map_err(|e| e.to_string())
+        // the model as the library holds it in memory (Debug text) next to its JSON: the property compares the model
+        // that the written document loads as with the library's model, not two outputs of the same serialiser
+        Ok((m.as_json().map_err(|e| e.to_string())?, format!("{:?}", m)))
     }));
     match r {
-        Ok(Ok(js)) => json!({"ok": true, "json": js}),
+        Ok(Ok((js, dbg))) => json!({"ok": true, "json": js, "debug": dbg}),
         Ok(Err(e)) => json!({"ok": false, "err": e}),
         Err(site) => json!({"ok": false, "err": format!("panic {}", site)}),
     }
@@ -67,9 +69,9 @@ fn chunks(out: &str) -> Vec<(String, String)> {
     res
 }
 
-fn same_model(a: &str, lib: &str) -> bool {
+fn same_model(a: &str, lib: &str, lib_debug: &str) -> bool {
     match Model::from_json(a) {
-        Ok(m) => m.as_json().map(|s| s == lib).unwrap_or(false),
+        Ok(m) => m.as_json().map(|s| s == lib).unwrap_or(false) && format!("{:?}", m) == lib_debug,
         Err(_) => false,
     }
 }
@@ -95,9 +97,9 @@ fn run_one(bin_dir: &Path, tool: &str, target: &Path, extra: bool, kind_hint: &s
     } else {
         w.call(&json!({"file": ctehexml.clone().unwrap_or_default().to_string_lossy()}), Duration::from_secs(60))
     };
-    let (lib_ok, lib_json) = match &lib {
-        Ok(v) if v["ok"] == true => (true, v["json"].as_str().unwrap_or("").to_string()),
-        _ => (false, String::new()),
+    let (lib_ok, lib_json, lib_debug) = match &lib {
+        Ok(v) if v["ok"] == true => (true, v["json"].as_str().unwrap_or("").to_string(), v["debug"].as_str().unwrap_or("").to_string()),
+        _ => (false, String::new(), String::new()),
     };
     let input = if kind_hint == "noproject" { "noproject" } else if lib_ok { "project" } else { "unconvertible" };
     let mut cmd = Command::new(bin_dir.join(tool));
@@ -118,13 +120,13 @@ fn run_one(bin_dir: &Path, tool: &str, target: &Path, extra: bool, kind_hint: &s
     out.push(json!({"ev": "Start", "tool": tool, "input": input, "extra": extra, "target": target.to_string_lossy(),
         "liberr": lib.as_ref().ok().and_then(|v| v["err"].as_str().map(|s| s.chars().take(160).collect::<String>())).unwrap_or_default()}));
     for (kind, text) in chunks(&stdout) {
-        let equal = kind == "json" && lib_ok && same_model(&text, &lib_json);
+        let equal = kind == "json" && lib_ok && same_model(&text, &lib_json, &lib_debug);
         out.push(json!({"ev": "Stdout", "kind": kind, "equal": equal, "bytes": text.len(), "head": text.chars().take(200).collect::<String>()}));
     }
     if outfile.exists() {
         let text = std::fs::read_to_string(&outfile).unwrap_or_default();
         let is_model = Model::from_json(&text).is_ok() && text.trim_start().starts_with('{');
-        out.push(json!({"ev": "OutFile", "kind": if is_model { "json" } else { "other" }, "equal": lib_ok && same_model(&text, &lib_json), "bytes": text.len()}));
+        out.push(json!({"ev": "OutFile", "kind": if is_model { "json" } else { "other" }, "equal": lib_ok && same_model(&text, &lib_json, &lib_debug), "bytes": text.len()}));
         let _ = std::fs::remove_file(&outfile);
     }
     out.push(json!({"ev": "Exit", "code": code}));
